@@ -57,6 +57,14 @@ inductive WsdlRule where
   | other
   deriving Repr, DecidableEq
 
+/-- which instances `object_to_simple_dict` refuses to walk into a second time (its `tags` set) -/
+inductive EncGuard where
+  | rootOnly   -- only the object the flattening started from: a reference back to it ends the walk; an instance
+               -- that is merely SHARED (two members, twice in a list) is written every time            (good)
+  | visited    -- every instance already written: the second occurrence of a shared instance is dropped
+  | other
+  deriving Repr, DecidableEq
+
 structure Facts03 where
   keyOrder : KeyOrder
   tagScope : TagScope
@@ -78,6 +86,10 @@ structure Facts03 where
   intEmptyIsNone : Bool
   subNameScope : SubScope
   wsdlRule : WsdlRule
+  encGuard : EncGuard
+  /-- a ByteArray member that declares its `encoding` is read with it; the protocol's own (urlsafe base64) is
+      only a suggestion for members that declare none                                       (good: true) -/
+  bytesDeclaredWins : Bool
 
 /-! ## Outcome as a monad (the type itself is C08's) -/
 
